@@ -47,6 +47,8 @@ def merge_stage(results, acc):
         acc["nontrivial"] += j.get("nontrivial", 0)
         acc["distinct"].update(j.get("distinct", []))
         acc["distinct_overflow"] += max(0, j.get("distinct_count", 0) - len(j.get("distinct", [])))
+        if j.get("distinct_capped"):
+            acc["counters"]["shards_with_capped_distinct_set"] = acc["counters"].get("shards_with_capped_distinct_set", 0) + 1
         if not j.get("exhaustive", True):
             acc["exhaustive"] = False
             if j.get("note"):
@@ -218,6 +220,8 @@ def main():
         "stages": stage_info,
         "notes": acc["notes"][:20],
     }
+    if acc["counters"].get("shards_with_capped_distinct_set"):
+        cov["distinct_is_lower_bound"] = True  # per-shard sets are capped at 2^21 entries (memory); counted conservatively
     if spec["level"] == "model_checking":
         cov["states"] = acc["counters"].get("states", distinct_n)
         cov["transitions"] = acc["counters"].get("transitions", acc["evaluations"])
